@@ -12,6 +12,7 @@ Pipeline of a check (DESIGN 3.3-3.5):
 """
 import json
 import os
+import re
 import time
 
 from . import core
@@ -39,6 +40,7 @@ class CheckDef:
     assumptions = []
     rule = ''
     signature_known = None       # callable(text, evs) -> known-finding signature or None
+    tags = ()                    # monitor violation tags (property ids) this check reports
 
     # --- hooks -------------------------------------------------------------------------------------
     def path_header(self, state0):
@@ -238,6 +240,9 @@ def run_check(cd, tier, seed):
                 raise Infra('monitor failed: ' + x['text'])
             if x['kind'] == 'rejected':
                 raise Infra('monitor %s got stuck at line %s of %s (monitors must accept every trace)' % (mod, x['line'], x['file']))
+            mt = re.match(r'(C\d+):', x['text'])
+            if mt and cd.tags and mt.group(1) not in cd.tags and not any(tg in x['text'] for tg in cd.tags):
+                continue
             cands.append((mod, x))
         log('[validate] %s: %d candidate violations' % (mod, len(fnd)))
 
